@@ -118,7 +118,7 @@ class Box:
         shutil.rmtree(self.root, ignore_errors=True)
 
 
-def run_export(make_doc, method, stub_mode, pre, fault_at=None, fault_cls=Fault, record_sites=False, second_fault_at=None, prelude=None):
+def run_export(make_doc, method, stub_mode, pre, fault_at=None, fault_cls=Fault, record_sites=False, second_fault_at=None, prelude=None, target_name=None):
     """-> dict(result, before, after, ncalls, sites, captured, stub_output, target_rel)
 
     prelude(doc, out_dir): earlier operations on the same document object (exports to other files,
@@ -129,7 +129,7 @@ def run_export(make_doc, method, stub_mode, pre, fault_at=None, fault_cls=Fault,
         tempfile.tempdir = box.tmp
         sub = os.path.join("deep", "er") if pre == "missingdir" else ""
         ext = {"rtf": "rtf", "docx": "docx", "html": "html", "pdf": "pdf"}[method]
-        target = os.path.join(box.out, sub, f"report.{ext}")
+        target = os.path.join(box.out, sub, target_name or f"report.{ext}")
         captured = []
         doc = make_doc(captured)
         pre_bytes = None
